@@ -15,11 +15,48 @@ var asaTopHeads = map[string]bool{"access-list": true, "object-group": true, "ac
 var groupMemberHeads = map[string]bool{"network-object": true, "port-object": true, "service-object": true,
 	"protocol-object": true, "icmp-object": true, "group-object": true, "description": true}
 
-func (d *Device) EnterConfig() { d.leftConf = false }
+func (d *Device) EnterConfig() {
+	d.leftConf = false
+	for _, b := range d.Blocks {
+		b.Fresh = false
+	}
+}
 func (d *Device) LeaveConfig() { d.leaveMode(); d.leftConf = false }
 
 func (d *Device) leaveMode() {
 	d.modeBlock, d.modeGroup, d.modeACL, d.modeSub, d.modeStray = nil, nil, nil, "", false
+}
+
+// IncompleteFresh names an entry that a mode command of the script
+// created and that was left without the attribute that identifies it (IOS
+// crypto map entry without peer, ASA certificate map without
+// subject-name): the mode command addressed a sequence number that is
+// not the entry its sub-commands belong to.
+func (d *Device) IncompleteFresh() string {
+	for _, b := range d.Blocks {
+		if !b.Fresh {
+			continue
+		}
+		key := ""
+		switch {
+		case d.Kind == "ios" && strings.HasPrefix(b.Header, "crypto map ") && strings.HasSuffix(b.Header, " ipsec-isakmp"):
+			key = "set peer "
+		case d.Kind == "asa" && strings.HasPrefix(b.Header, "crypto ca certificate map "):
+			key = "subject-name "
+		default:
+			continue
+		}
+		found := false
+		for _, s := range b.Sub {
+			if strings.HasPrefix(s, key) {
+				found = true
+			}
+		}
+		if !found {
+			return fmt.Sprintf("'%s' created by the script holds %q but no '%s...'", b.Header, b.Sub, strings.TrimSpace(key))
+		}
+	}
+	return ""
 }
 
 func (d *Device) inMode() bool {
@@ -208,7 +245,7 @@ func (d *Device) execASA(line string) string {
 	if d.isBlockHeader(line) && !neg {
 		b := d.Block(line)
 		if b == nil {
-			b = &Block{Header: line}
+			b = &Block{Header: line, Fresh: true}
 			d.Blocks = append(d.Blocks, b)
 		}
 		d.modeBlock = b
@@ -642,12 +679,12 @@ func (d *Device) execIOS(line string) string {
 			if strings.HasPrefix(line, "interface ") {
 				return "accepted(anomaly:new-interface-created)"
 			}
-			b = &Block{Header: line}
+			b = &Block{Header: line, Fresh: true}
 			d.Blocks = append(d.Blocks, b)
 		}
 		d.modeBlock = b
 		return "accepted"
-	case len(w) == 5 && w[0] == "no" && w[1] == "crypto" && w[2] == "map":
+	case (len(w) == 5 || len(w) == 6) && w[0] == "no" && w[1] == "crypto" && w[2] == "map" && isNumber(w[4]):
 		hp := "crypto map " + w[3] + " " + w[4] + " "
 		if d.removeBlocks(func(b *Block) bool { return strings.HasPrefix(b.Header, hp) }) == 0 {
 			return "rejected:delete-of-absent-object crypto map " + w[3] + " " + w[4]
